@@ -2,6 +2,8 @@ import Dbg.Lemmas.KmerExtend
 import Dbg.Lemmas.KmerRc
 import Dbg.Lemmas.KmerOrder
 import Dbg.Lemmas.KmerSlice
+import Dbg.Lemmas.KmerMore
+import Dbg.Lemmas.KmerCount
 /-! # C10 — Packed k-mers behave as length-K strings
 
 `Kmer.toSeq c s` is the string read from storage `s` by the model of `get`; every theorem says that an
@@ -109,6 +111,55 @@ theorem C10_toU64 (c : Cfg) (hc : c.WF) (hK : c.K ≤ 32) (s : St c) (hs : Inv c
   unfold toU64
   rw [if_pos (by have : (4:Nat) ^ 32 = 2 ^ 64 := by decide
                  omega), toNat_eq_val hc s hs]
+
+/-- C10 (construction from a rank): for ranks below 4^K, `from_u64` spells the K base-4 digits of the rank and the
+    round trip with `to_u64` is the identity (K ≤ 32) -/
+theorem C10_fromU64 (c : Cfg) (hc : c.WF) (v : Nat) (hv : v < 4 ^ c.K) :
+    ∃ s, fromU64 c v = some s ∧ toSeq c s = KSpec.digits4 c.K v ∧ Inv c s := fromU64_spec hc v hv
+
+theorem C10_u64_roundtrip (c : Cfg) (hc : c.WF) (hK : c.K ≤ 32) (v : Nat) (hv : v < 4 ^ c.K) :
+    ∃ s, fromU64 c v = some s ∧ toU64 c s = some v := by
+  obtain ⟨s, h1, h2, h3⟩ := fromU64_spec hc v hv
+  refine ⟨s, h1, ?_⟩
+  rw [C10_toU64 c hc hK s h3, h2, val_digits4 c.K v hv]
+
+/-- C10 (text rendering) -/
+theorem C10_toString (c : Cfg) (hc : c.WF) (s : St c) : toStr c s = KSpec.toText (toSeq c s) := toStr_spec hc s
+
+/-- C10 (construction from ASCII): `from_ascii` is `from_bytes` of the bytewise conversion -/
+theorem C10_fromAscii (c : Cfg) (hc : c.WF) (bytes : List Nat) (hl : c.K ≤ bytes.length) :
+    ∃ s, fromAscii c bytes = some s ∧ toSeq c s = (bytes.take c.K).map baseToBits ∧ Inv c s := by
+  rw [fromAscii_eq]
+  have hb : ∀ b ∈ bytes.map baseToBits, b < 4 := by
+    intro b hb
+    obtain ⟨ch, _, rfl⟩ := List.mem_map.mp hb
+    unfold baseToBits
+    by_cases h : ch < 256
+    · have : ∀ x : Fin 256, Gen.baseToBits.getD x.val 0 < 4 := by decide +kernel
+      exact this ⟨ch, h⟩
+    · have hlen : Gen.baseToBits.length = 256 := by decide +kernel
+      have : Gen.baseToBits[ch]? = none := List.getElem?_eq_none (by rw [hlen]; omega)
+      simp [List.getD_eq_getElem?_getD, this]
+  obtain ⟨s, h1, h2, h3⟩ := C10_fromBytes c hc (bytes.map baseToBits) (by simpa using hl) hb
+  exact ⟨s, h1, by rw [h2, List.map_take], h3⟩
+
+/-- C10 (bulk construction): `kmers_from_bytes` yields exactly the n-K+1 windows in order (none if n < K) -/
+theorem C10_kmersFromBytes (c : Cfg) (hc : c.WF) (str : List Nat) (hb : ∀ b ∈ str, b < 4) :
+    (kmersFromBytes c str).map (toSeq c) = KSpec.windows c.K str := kmersFromBytes_spec hc str hb
+
+/-- C10 (Hamming distance): the number of positions at which the two strings differ -/
+theorem C10_hamming (c : Cfg) (hc : c.WF) (hw : c.w ∈ [8, 16, 32, 64, 128]) (s t : St c) (hs : Inv c s) (ht : Inv c t) :
+    hammingDist c s t = KSpec.hamming (toSeq c s) (toSeq c t) := hammingDist_spec hc hw s t hs ht
+
+/-- C10 (AT / GC counts); the unused bits of partial-width types are masked, so no invariant is needed -/
+theorem C10_atCount (c : Cfg) (hc : c.WF) (hw : c.w ∈ [8, 16, 32, 64, 128]) (s : St c) :
+    atCount c s = KSpec.atCount (toSeq c s) := atCount_spec hc hw s
+theorem C10_gcCount (c : Cfg) (hc : c.WF) (hw : c.w ∈ [8, 16, 32, 64, 128]) (s : St c) :
+    gcCount c s = KSpec.gcCount (toSeq c s) := gcCount_spec hc hw s
+
+/-- C10 (bulk construction from ASCII) -/
+theorem C10_kmersFromAscii (c : Cfg) (hc : c.WF) (str : List Nat) (hb : ∀ b ∈ str.map baseToBits, b < 4) :
+    (kmersFromAscii c str).map (toSeq c) = KSpec.windows c.K (str.map baseToBits) := kmersFromBytes_spec hc _ hb
 
 /-- the hypotheses are satisfiable: Kmer5 (u16, partial width) -/
 example : toSeq ⟨16, 5, true⟩ (extendRight ⟨16, 5, true⟩ 0x1B#16 2) = KSpec.extendRight (toSeq ⟨16, 5, true⟩ 0x1B#16) 2 := by decide
